@@ -49,6 +49,7 @@ type Contract struct {
 	Labels    []Clause // secret/public/declassify (C20)
 	Sets      []GhostSet // ghost assignments made at return: sets name := expr
 	Acquires  []Clause   // declared locks the function takes (and releases) itself: acquires c.mux
+	Havocs    []string   // ghost variables changed by the function through its callees: havocs g1, g2
 	Raw       map[string][]string
 }
 
@@ -85,7 +86,7 @@ type TypeSpec struct {
 	Attrs  map[string]string
 }
 
-var clauseKeywords = map[string]bool{"requires": true, "ensures": true, "modifies": true, "loop": true, "decreases": true, "sets": true, "acquires": true, "guards": true, "lockinv": true,
+var clauseKeywords = map[string]bool{"requires": true, "ensures": true, "modifies": true, "loop": true, "decreases": true, "sets": true, "acquires": true, "havocs": true, "guards": true, "lockinv": true,
 	"trusted": true, "pure": true, "may_panic": true, "inline": true, "noinline": true, "reveal": true, "field": true,
 	"secret": true, "public": true, "declassify": true, "level": true, "sink": true, "source": true, "trusted_frame": true, "trusted_ensures": true, "seq_extensionality": true, "atomic": true, "rely": true}
 
@@ -267,6 +268,13 @@ func (p *Program) parseContractFile(file, text string, model bool) error {
 					cur.Ensures = append(cur.Ensures, cl)
 					lastClause = &cur.Ensures[len(cur.Ensures)-1]
 				}
+			case "havocs":
+				for _, g := range strings.Split(rest, ",") {
+					if g = strings.TrimSpace(g); g != "" {
+						cur.Havocs = append(cur.Havocs, g)
+					}
+				}
+				lastClause = nil
 			case "acquires":
 				cl, err := mk(rest)
 				if err != nil {
@@ -785,6 +793,11 @@ func (c *Contract) modHeapsApprox(p *Program, f interface{}) map[string]string {
 	for _, gs := range c.Sets {
 		if gv := p.Ghosts[gs.Name]; gv != nil {
 			out["GH.u."+gs.Name] = gv.Sort
+		}
+	}
+	for _, g := range c.Havocs {
+		if gv := p.Ghosts[g]; gv != nil {
+			out["GH.u."+g] = gv.Sort
 		}
 	}
 	if c.Pure || len(c.Modifies) == 0 {
